@@ -660,6 +660,7 @@ int main()
             continue;
         auto f = vh::fields(line);
         std::string op = line.substr(0, line.find(' '));
+        vh::case_alarm(300); // per-case watchdog (reported as abort:timeout for this case)
         if (op == "spe")
             op_spe(f, false);
         else if (op == "specov")
